@@ -197,6 +197,7 @@ int hx_run(const hx_script *s, hx_obs *o) {
     htp_connp_open(c, "10.0.0.1", 32768, "10.0.0.2", 80, &drv_tv);
     hx_in_lib = 0;
 
+    for (int rep = 0; rep < (s->repeat > 1 ? s->repeat : 1); rep++)
     for (int i = 0; i < s->nops; i++) {
         const hx_op *op = &s->ops[i];
         switch (op->k) {
@@ -247,7 +248,7 @@ done:
     if (lt_run.cnt != 0) {
         o->leaked = (int) lt_run.cnt; o->leaked_bytes = (size_t) lt_run.bytes;
         if (!o->fault_fired)
-            hx_verdict_add("C01", "leak", "%d allocation(s), %lld bytes made by the library are still live after htp_connp_destroy_all", o->leaked, (long long) lt_run.bytes);
+            hx_verdict_add("C01", "leak", "%d allocation(s), %lld bytes made by the library are still live after htp_connp_destroy_all (first: %s)", o->leaked, (long long) lt_run.bytes, lt_first_leak_site(&lt_run));
     }
     hx_cur = NULL;
     return 0;
